@@ -57,7 +57,7 @@ def gen_meta(ctx, model_paths=None, modname="GenMeta", ns="Gen"):
     return modname, ""
 
 
-def gen_pkg(ctx, pkgdir=None, modname="GenPkg", ns="Gen", hashseed=0):
+def gen_pkg(ctx, pkgdir=None, modname="GenPkg", ns="Gen", hashseed=0, skip_if_same_as=None):
     args = ["--pkgdir", str(pkgdir)] if pkgdir else []
     p = common.run_py(common.VERIF / "tools/extract/x_pkg.py", args, check=False, hashseed=hashseed)
     if p.returncode != 0:
@@ -65,6 +65,12 @@ def gen_pkg(ctx, pkgdir=None, modname="GenPkg", ns="Gen", hashseed=0):
     text = p.stdout
     if ns != "Gen":
         text = text.replace("namespace Gen", f"namespace {ns}").replace("end Gen", f"end {ns}")
+    if skip_if_same_as is not None:
+        a = strip_header(skip_if_same_as)
+        b = strip_header(text).replace(f"namespace {ns}", "namespace Gen").replace(f"end {ns}", "end Gen")
+        if a == b:
+            common.write_module(ctx.work, modname, text)
+            return "SAME", ""
     r = compile_cached(ctx, modname, text)
     if not r.ok:
         raise Broken(f"{modname} does not elaborate:\n{r.out[-3000:]}")
@@ -87,3 +93,52 @@ def fresh_python_package(model_paths=None) -> tuple[pathlib.Path | None, str]:
         if src.exists():
             shutil.copy(src, d / "lsprotocol" / f)
     return d, ""
+
+
+def strip_header(t: str) -> str:
+    return "\n".join(l for l in t.splitlines() if not l.startswith("-- generated"))
+
+
+class Packages:
+    """The committed package and the package freshly emitted by the current generator, as Lean
+    tables.  `items` = list of dicts {label, ns, mod, pkgdir, same_as_committed}.  Use as a context
+    manager so the scratch package directory is always removed."""
+
+    def __init__(self, ctx, want_fresh=True):
+        self.ctx, self.want_fresh = ctx, want_fresh
+        self.items = []
+        self.problems = []
+        self.fresh_dir = None
+
+    def __enter__(self):
+        ctx = self.ctx
+        pk, err = gen_pkg(ctx)
+        if pk is None:
+            self.problems.append(("committed", "x_pkg failed (package does not import?): " + err[-1500:]))
+            ctx.obligation("x_pkg:committed", False, "translator", err)
+        else:
+            self.items.append({"label": "committed", "ns": "Gen", "mod": "GenPkg", "pkgdir": None, "suffix": "", "same": False})
+        if self.want_fresh:
+            fresh, err = fresh_python_package()
+            self.fresh_dir = fresh
+            if fresh is None:
+                self.problems.append(("fresh", "the python plugin failed on the committed model: " + err[-1500:]))
+                ctx.obligation("generator:python-plugin", False, "translator", err)
+            else:
+                pkf, err = gen_pkg(ctx, pkgdir=fresh, modname="GenPkgF", ns="GenF",
+                                   skip_if_same_as=(ctx.work / "GenPkg.lean").read_text() if pk else None)
+                if pkf is None:
+                    self.problems.append(("fresh", "x_pkg failed on the freshly generated package: " + err[-1500:]))
+                    ctx.obligation("x_pkg:fresh", False, "translator", err)
+                else:
+                    same = pkf == "SAME"
+                    if same:
+                        ctx.obligation("fresh-package-tables-identical-to-committed", True, "translator-output-equality",
+                                       "tables extracted from the freshly generated package are byte-identical to the committed package's; the same theorems cover both")
+                    self.items.append({"label": "fresh", "ns": "GenF", "mod": "GenPkgF", "pkgdir": fresh, "suffix": "F", "same": same})
+        return self
+
+    def __exit__(self, *a):
+        if self.fresh_dir is not None:
+            shutil.rmtree(self.fresh_dir, ignore_errors=True)
+        return False
